@@ -65,6 +65,12 @@ def gen_corpus(rng, n_random):
     for ln in range(0, 81):
         full = header(gen=rng.choice([2, 6, 65534])) + record(rand_record(rng)) + b"\xaa" * 8
         out.append(("truncated-%d" % ln, 0, full[:ln]))
+    # Bound is a signed 64-bit field: a segment may carry a negative value although the daemon never
+    # publishes one; both client libraries must still agree on what they return for it
+    for nb in (-1, -10000, -5 * 10 ** 9, -(10 ** 15)):
+        for st in (0, 1, 2):
+            r0 = rand_record(rng)
+            out.append(("valid-negative-bound%d-status%d" % (nb, st), 0, header(gen=rng.choice([2, 8])) + record(r0[:4] + (nb,) + (r0[5], st))))
     out.append(("old-magic-doc-bytes", 0, bytes([0x41, 0x4D, 0x5A, 0x4E, 0x43, 0x42, 0x02, 0x00]) + valid[8:]))
     out.append(("text", 0, b"foobarbaz"))
     out.append(("missing", 1, b""))
